@@ -615,7 +615,9 @@ val read_loop : nat -> decompressor -> n -> (decompressor * n list) * rres
 
 val dRead : decompressor -> n -> (decompressor * n list) * rres
 
-val erun_loop : decompressor -> n list -> (n list * rres) list * decompressor
+val erun_loop :
+  decompressor -> n list -> (n list * rres) list -> (n list * rres)
+  list * decompressor
 
 val erun_ext :
   n -> n list list -> terminal -> n list -> (n list * rres) list * n
